@@ -777,7 +777,7 @@ class PermitCheck:
 
     def __init__(self, prop):
         self.prop = prop
-        self.budgets = {"quick": (160_000, 75), "thorough": (4_000_000, 1500)}
+        self.budgets = {"quick": (500_000, 90), "thorough": (20_000_000, 1500)}
         self.rule_text = (
             "cases = seeded programs (2-5/8 tasks x 1-3/4 cancellable segments x 1-5/7 statements over acquire, "
             "acquire_nowait, release, on-behalf-of variants, sleep, checkpoint, cancel(segment), total_tokens:=v) + "
